@@ -93,7 +93,7 @@ def kind_tok(kind):
     return "u" if kind[0] == "u" else f"g {kind[1]} {kind[2]}"
 
 
-def stream_lcf(ctx, built=True, oracle=None):
+def stream_lcf(ctx, built=True, oracle=None, parts=("lcf", "extreme", "ecnt", "live")):
     """is_low_count on tracker lists and both entity counters on entity multisets; `oracle(case)` evaluates C02 on the real code."""
     import syndiffix.anonymizer as A
     R = ctx.rng
@@ -101,7 +101,7 @@ def stream_lcf(ctx, built=True, oracle=None):
                    "low_threshold and the saturation cap, duplicates, null ids, shuffles); non-trivial = count within 3 sd of the noisy "
                    "mean or a saturating counter, distinct by (salt, params, entity sets)")
     lines, exp, cases = [], [], []
-    for _ in range(ctx.scale(3000, 60000)):
+    for _ in range(ctx.scale(3000, 60000) if "lcf" in parts else 0):
         salt, p = rand_salt(R), rand_supp(R)
         n = R.choice([1, 1, 1, 2, 3])
         ts = [(max(0, p.low_threshold + R.randint(-3, 9)), R.getrandbits(64)) for _ in range(n)]
@@ -110,7 +110,36 @@ def stream_lcf(ctx, built=True, oracle=None):
         near = any(abs(c - (p.low_threshold + p.low_mean_gap * p.layer_sd)) <= 3 * p.layer_sd + 1 for c, _ in ts)
         case = {"op": "lcf", "salt": salt, "lt": p.low_threshold, "sd": p.layer_sd, "gap": p.low_mean_gap, "trackers": ts, "impl": low}
         cases.append(case); S.count((salt, supp_tok(p), tuple(ts)), near, case, tag=f"lcf/{n}")
-    for _ in range(ctx.scale(1500, 30000)):
+    # entity sets whose deviate lies far in a tail (|z| >= 3.5, found by brute force over seeds with the harness's own SHA-256 / Box-Muller),
+    # with parameters that put the decision on the edge: the floor and the threshold arithmetic where the noise term is largest
+    import hashlib as _hl, math as _m
+    from syndiffix.common import SuppressionParams as _SP
+    hstep = int.from_bytes(_hl.blake2b(b"suppress", digest_size=8).digest(), "little")
+    salt_x = rand_salt(R) or b"x"
+    pool = []
+    for _ in range(ctx.scale(250000, 2000000) if "extreme" in parts else 0):
+        sd_ = R.getrandbits(64)
+        m = hstep ^ int.from_bytes(_hl.sha256(salt_x + sd_.to_bytes(8, "little")).digest()[:8], "little")
+        u1 = max((m & 0x7FFFFFFF) / 0x7FFFFFFF, 2.220446049250313e-16)
+        if u1 > 0.0022:
+            continue
+        z = _m.sqrt(-2.0 * _m.log(u1)) * _m.sin(2.0 * _m.pi * (((m >> 32) & 0x7FFFFFFF) / 0x7FFFFFFF))
+        if abs(z) >= 3.5:
+            pool.append((sd_, z))
+    pool.sort(key=lambda t: t[1])
+    pool = pool[:40] + pool[-20:]
+    for sd_, z in pool:
+        for _ in range(6):
+            lt = R.choice([2, 3, 5, 10]); sd = R.choice([0.25, 1 / 3, 0.5, 0.5, 0.75, 1.0, 2.0]); gap = R.choice([0.5, 1.0, 2.0, 2.0, 3.0, 4.0])
+            p = _SP(lt, sd, gap)
+            edge = int(_m.floor(lt + gap * sd + sd * z))
+            for c in sorted({max(0, lt - 2), max(0, lt - 1), lt, max(0, edge - 1), max(0, edge), edge + 1}):
+                ts = [(c, sd_)]
+                low = A.is_low_count(salt_x, p, [(c, U64(sd_))])
+                lines.append(f"lcf {salt_hex(salt_x)} {supp_tok(p)} 1 {c} {sd_}"); exp.append("1" if low else "0")
+                case = {"op": "lcf", "salt": salt_x, "lt": lt, "sd": sd, "gap": gap, "trackers": ts, "impl": low, "deviate": round(z, 3)}
+                cases.append(case); S.count((salt_x, supp_tok(p), tuple(ts)), True, case, tag="lcf/extreme-deviate")
+    for _ in range(ctx.scale(1500, 30000) if "ecnt" in parts else 0):
         salt, p = rand_salt(R), rand_supp(R)
         if R.random() < 0.4:
             kind, dims = ("u",), 1
@@ -145,7 +174,7 @@ def stream_lcf(ctx, built=True, oracle=None):
     # one live counter asked repeatedly while it grows (and with changing thresholds): every answer must be the answer for the
     # entities seen so far - the decision is a function of the entity sets, not of earlier questions
     from dataclasses import replace as _replace
-    for _ in range(ctx.scale(400, 6000)):
+    for _ in range(ctx.scale(400, 6000) if "live" in parts else 0):
         salt, p0 = rand_salt(R), rand_supp(R)
         if R.random() < 0.3:
             kind, dims = ("u",), 1
